@@ -3,6 +3,7 @@ import JmesVerif.Spec.PySlice
 import JmesVerif.Model.Encode
 import JmesVerif.Spec.GrammarCheck
 import JmesVerif.Model.Interp
+import JmesVerif.Spec.Paren
 /-!
 Line-protocol driver for the model side of the correspondence streams (DESIGN §4.2).
 `jmdriver <stream>` reads one case per line on stdin and writes one result line per case.
@@ -69,7 +70,9 @@ def streamParse (fields : List String) : String :=
       | .error e => compileErrStr (.parse e)
       | .ok (e, a) =>
         let d := GrammarCheck.exprDev false e
-        s!"ok {Enc.astStr a}\tt1={t1Check ts e a}\tdev={d.f3},{d.f4},{d.f5},{d.f16}"
+        let par := Enc.hexStr (Paren.spell (Paren.parenthesize e))
+        let resp := Enc.hexStr (Paren.spell e)
+        s!"ok {Enc.astStr a}\tt1={t1Check ts e a}\tdev={d.f3},{d.f4},{d.f5},{d.f16}\tpar={par}\tresp={resp}"
   | _ => "BADCASE"
 
 def rtErrStr : RtErr → String
